@@ -94,8 +94,8 @@ def _crash_key(tb):
     lines = [l for l in tb.strip().split('\n') if l.strip()]
     exc = 'Exception'
     for l in reversed(lines):
-        m = re.match(r'^([A-Za-z_][\w.]*(?:Error|Exception|Interrupt|Exit|Timeout|Warning|Crash)\w*)\b', l.strip())
-        if m:
+        m = re.match(r'^([A-Za-z_][\w.]*)(?::\s|:$|$)', l.strip())
+        if m and m.group(1).split('.')[-1][:1].isupper() and not l.startswith(' '):
             exc = m.group(1).split('.')[-1]
             break
     if exc == 'RecursionError':
